@@ -43,8 +43,17 @@ def anchors():
     return [du.OneToOne, du.ManyToMany, du.FrozenDict]
 
 
+NAN = float('nan')
+
+
 def lf(x):
+    if x == '<nan>':
+        return NAN
     return tuple(x) if isinstance(x, list) else x
+
+
+def same(a, b):
+    return a is b or a == b
 
 
 class Ident(object):
@@ -90,7 +99,18 @@ class OtoCheck(object):
                 ops.append([side, 'del', k])
             elif name in ('update', 'ior'):
                 shape = r.choice(['dict', 'pairs', 'iter', 'oto'])
-                op = [side, name, shape, self.gen_pairs(r, side)]
+                pairs = self.gen_pairs(r, side)
+                if r.random() < 0.12:
+                    # a bulk load: many fresh pairs plus a few that re-point existing keys to fresh values and move
+                    # existing values under fresh keys
+                    nfresh = r.choice([61, 62, 63, 64, 70, 200])
+                    pairs = [['fk%d' % i, 'fv%d' % i] for i in range(nfresh)]
+                    for _ in range(r.randint(0, 3)):
+                        pairs.insert(r.randint(0, len(pairs)), [r.choice(ks), 'nv%d' % r.randint(0, 5)])
+                    for _ in range(r.randint(0, 3)):
+                        pairs.insert(r.randint(0, len(pairs)), ['nk%d' % r.randint(0, 5), r.choice(vs)])
+                    pairs += self.gen_pairs(r, side)
+                op = [side, name, shape, pairs]
                 if name == 'update' and side == 'fwd' and r.random() < 0.25:
                     op.append([[r.choice(STR_K), r.choice(V)]])
                 ops.append(op)
@@ -358,6 +378,8 @@ class M2mCheck(object):
     def gen(self, r, ctx):
         ops = []
         A, B = ['a', 'b', 'c', 1], [1, 2, 3, 'a']
+        if r.random() < 0.25:
+            A, B = A + ['<nan>'], B + ['<nan>']     # a key that is not equal to itself (float('nan'))
         for _ in range(r.randint(1, r.choice([6, 20, 60]))):
             side = r.choice(['fwd', 'fwd', 'inv'])
             ks, vs = (A, B) if side == 'fwd' else (B, A)
@@ -409,7 +431,7 @@ class M2mCheck(object):
                     if set(side.keys()) != keys or len(side) != len(keys) or set(iter(side)) != keys:
                         return Failure(i, 'keys', 'keys %r vs %r (an empty entry?)' % (set(side.keys()), keys), op)
                     for k in keys:
-                        want = frozenset(v for kk, v in pairs if kk == k)
+                        want = frozenset(v for kk, v in pairs if same(kk, k))
                         if side[k] != want or side.get(k) != want or k not in side:
                             return Failure(i, 'lookup', '[%r] -> %r want %r' % (k, side[k], want), op)
                     if side.get('zz-absent') != frozenset() or 'zz-absent' in side:
@@ -450,7 +472,7 @@ class M2mCheck(object):
                         got = outcome(obj.__setitem__, k, vals)
                     elif how == 'replace-newkey':
                         got = outcome(obj.replace, k, [1, 2])
-                        if not any(p[0] == k for p in Q) and got == ('ok', None):
+                        if not any(same(p[0], k) for p in Q) and got == ('ok', None):
                             got = ('exc', 'TypeError')      # nothing to rename: returning quietly is fine
                     elif how == 'update-pairs':
                         got = outcome(obj.update, list(bad))
@@ -486,22 +508,22 @@ class M2mCheck(object):
                     k = lf(op[2])
                     vals = [lf(v) for v in op[3]]
                     obj[k] = vals
-                    Q = set(p for p in Q if p[0] != k) | set((k, v) for v in vals)
+                    Q = set(p for p in Q if not same(p[0], k)) | set((k, v) for v in vals)
                 elif name == 'del':
                     k = lf(op[2])
                     got = outcome(obj.__delitem__, k)
-                    want = ('ok', None) if any(p[0] == k for p in Q) else ('exc', 'KeyError')
+                    want = ('ok', None) if any(same(p[0], k) for p in Q) else ('exc', 'KeyError')
                     if got != want:
                         return Failure(i, 'result[del]', '%r vs %r' % (got, want), op)
-                    Q = set(p for p in Q if p[0] != k)
+                    Q = set(p for p in Q if not same(p[0], k))
                 elif name == 'replace':
                     k, nk = lf(op[2]), lf(op[3])
                     obj.replace(k, nk)
-                    if any(p[0] == k for p in Q):
-                        moved = set((nk, v) for kk, v in Q if kk == k)
-                        rest = set(p for p in Q if p[0] != k)
+                    if any(same(p[0], k) for p in Q):
+                        moved = set((nk, v) for kk, v in Q if same(kk, k))
+                        rest = set(p for p in Q if not same(p[0], k))
                         merged = rest | moved
-                        overwritten = set(p for p in rest if p[0] != nk) | moved
+                        overwritten = set(p for p in rest if not same(p[0], nk)) | moved
                         now = readpairs(obj)
                         Q = overwritten if (now == overwritten and overwritten != merged) else merged
                 elif name == 'update':
@@ -597,6 +619,16 @@ def check_frozen(c, st):
             got = outcome(lambda: hash(fd))
             if got != ('exc', 'FrozenHashError'):
                 return ('frozen:hash-unhashable', 'hash() attempt %d -> %r' % (attempt, got))
+        # equal FrozenDicts stay equal after both had their hash asked for (and refused)
+        twin = du.FrozenDict(items + [('u', [1, 2])])
+        outcome(lambda: hash(twin))
+        st.monitor_evals += 1
+        for how, other in (('rebuilt', twin), ('copy.deepcopy', copy.deepcopy(fd)), ('pickle', pickle.loads(pickle.dumps(fd, 2))),
+                           ('updated()', fd.updated())):
+            outcome(lambda: hash(other))
+            if not (fd == other) or (fd != other) or not (other == fd) or dict(fd) != dict(other):
+                return ('frozen:eq-after-failed-hash', 'two equal FrozenDicts with an unhashable value (%s) compare unequal once '
+                        'hash() was attempted on both' % how)
         # derived values whose unhashable entry has been replaced must hash like any equal FrozenDict
         for how, fn in (('updated(**kw)', lambda: fd.updated(u=1)), ('updated(mapping)', lambda: fd.updated({'u': 1})),
                         ('FrozenDict(fd, **kw)', lambda: du.FrozenDict(fd, u=1))):
